@@ -322,9 +322,9 @@ theorem expandField_call (re : Str → Str → Bool) (refs : List ColRef) (f : F
       match innerCall (.call cname cargs) with
       | some (iname, some (.wildcard wt)) =>
         if wt = .TAG then .error (errTagWildcard ++ iname ++ ['(', ')'])
-        else .ok (callFields refs f.name (.call cname cargs) iname (fun _ => true))
+        else .ok (callFields refs f.rfName (.call cname cargs) iname (fun _ => true))
       | some (iname, some (.regex src)) =>
-        .ok (callFields refs f.name (.call cname cargs) iname (fun r => re src r.name))
+        .ok (callFields refs f.rfName (.call cname cargs) iname (fun r => re src r.name))
       | _ => .ok [f] := by
   unfold expandField
   rw [hf]
@@ -641,7 +641,7 @@ theorem expandField_no_whole_wild (re : Str → Str → Bool) (refs : List ColRe
       simp only [List.mem_singleton] at hg
       subst hg
       rw [hfe]; rfl
-    have hcf : ∀ iname keep, out = callFields refs f.name (.call cname cargs) iname keep →
+    have hcf : ∀ iname keep, out = callFields refs f.rfName (.call cname cargs) iname keep →
         g.expr.isWildOrRegex = false := by
       intro iname keep e
       subst e
